@@ -5,11 +5,11 @@ from harness import common as C
 from harness import zoo as Z
 
 ANCHORS = ["T7unseen", "T4", "T7mic"]
-MODELS = ["Mic", "MicCase"]
+MODELS = ["Mic", "MicCase", "CrossCase"]
 RULE = ("fitted transform-capable models (EOF, ComplexEOF, SparsePCA, POP, their rotators, CPCCA family, their rotators, multi.CCA) x new data with "
         "1..N samples, sample coordinates disjoint from / overlapping / equal to the training ones, one or two sample dimensions, a sample "
         "MultiIndex, and EVERY split point of the new data into two parts; non-trivial: >= 2 new samples and >= 2 features; distinct by input hash")
-PARTIAL = ["row-wise theorems are proved for the scaler, the projection and the rotator tail; SparsePCA/POP/cross-set transforms are covered by the API oracle"]
+PARTIAL = ["row-wise theorems are proved for the scaler, the EOF projection, the rotator tail and the cross-set chain (scaler, PCA, whitening, projection, normalisation; run at binary64 against the real transform); SparsePCA and POP transforms are covered by the API oracle"]
 REFUTED = []
 TRUSTED = ["xarray concat/sel along the sample dimension", "translator T7unseen (which back-transformation each transform implementation calls)"]
 ASSUMES = []
@@ -205,6 +205,79 @@ def run_cross(ctx, rng, N):
             check_transform(ctx, "C05:CPCCARotator:Y", "rotator(power=%d) on %s field Y/%s" % (power, name, mode), lambda d: rot.transform(Y=d), ny, "time", replay)
 
 
+def run_cross_model(ctx, rng, N):
+    """correspondence: the cross-set transform chain of Proofs/C05_proofs.v (cross_pipeline) at binary64 against
+    CPCCA/MCA/CCA/RDA.transform of new data; the stage matrices are read off the fitted model"""
+    import xarray as xr
+    specs = Z.specs()
+    names = ["CPCCA", "MCA", "CCA", "RDA"]
+    cases, metas = [], []
+    for i in range(N):
+        name = names[i % len(names)]
+        sp = specs[name]
+        n = int(rng.integers(10, 16))
+        p1, p2 = int(rng.integers(3, 6)), int(rng.integers(3, 6))
+        X, Y = Z.data2d(rng, n, p1, "x"), Z.data2d(rng, n, p2, "y")
+        kw = dict(use_pca=bool(rng.random() < 0.6), n_pca_modes=int(rng.integers(2, min(p1, p2) + 1)), standardize=bool(rng.random() < 0.4), solver="full")
+        if name == "CPCCA":
+            kw["alpha"] = [float(rng.choice([0.0, 0.5, 1.0])), float(rng.choice([0.0, 0.5, 1.0]))]
+        k = int(rng.integers(1, 3))
+        try:
+            m = sp.make(k, **kw)
+            m.fit(X, Y, "time")
+        except Exception as e:
+            ctx.dist["cross-model:fit-refused:" + C.errkind(e)] += 1
+            continue
+        for fld, D, pre, pca, wh, cname, nname, fname in (("X", X, m.preprocessor1, m.pca1, m.whitener1, "components1", "norm1", m.feature_name[0]),
+                                                          ("Y", Y, m.preprocessor2, m.pca2, m.whitener2, "components2", "norm2", m.feature_name[1])):
+            normalized = bool(rng.random() < 0.5)
+            m_new = int(rng.integers(1, 5))
+            new = new_data(rng, D, m_new, "disjoint")
+            try:
+                exp = (m.transform(X=new, normalized=normalized) if fld == "X" else m.transform(Y=new, normalized=normalized)).transpose("time", "mode").values
+                sc = pre.scaler.transformers[0]
+                par = sc.get_params()
+                p = D.shape[1]
+                mean = np.asarray(sc.mean_.values, dtype=float) if par["with_center"] else np.zeros(p)
+                std = np.asarray(sc.std_.values, dtype=float) if par["with_std"] else np.ones(p)
+
+                def stage_matrix(stage, q_in):
+                    """the matrix of a linear stage, read off by transforming the identity"""
+                    if getattr(stage, "is_identity", False):
+                        return np.eye(q_in)
+                    ref = stage.V if hasattr(stage, "V") else stage.T
+                    eye = xr.DataArray(np.eye(q_in), dims=(m.sample_name, fname), coords={fname: ref.coords[fname].values})
+                    return np.asarray(stage.transform(eye).transpose(m.sample_name, fname).values, dtype=float)
+                Vp = stage_matrix(pca, p)
+                T = stage_matrix(wh, Vp.shape[1])
+                Cm = np.asarray(m.data[cname].transpose(fname, "mode").values, dtype=float)
+                nrm = np.asarray(m.data[nname].values, dtype=float)
+            except Exception as e:
+                ctx.violation("C05:%s:cross-model:error:%s" % (name, C.errkind(e)), "%s: reading the transform chain / transform(%s=new) raised %r" % (name, fld, e),
+                              dict(kind="cross-model", cls=name, kw=kw))
+                continue
+            fl = "(mkFlags %s %s false)" % (C.cbool(bool(par["with_center"])), C.cbool(bool(par["with_std"])))
+            cases.append("mkXC %d %d %d %d %d %s %s %s %s %s %s %s %s %s" % (
+                m_new, p, Vp.shape[1], T.shape[1], k, fl, C.cvec(mean), C.cvec(std), C.cmat(np.asarray(new.values, dtype=float)), C.cmat(Vp), C.cmat(T), C.cmat(Cm),
+                ("(Some %s)" % C.cvec(nrm)) if normalized else "None", C.cmat(exp)))
+            metas.append("%s field %s %r normalized=%s" % (name, fld, kw, normalized))
+            ctx.case(("c05xm", name, fld, n, p1, p2, k, str(kw), normalized, i), nontrivial=m_new >= 2, tag="%s/chain-model/%s" % (name, "pca" if kw["use_pca"] else "nopca"))
+    if not cases:
+        return
+    body = [C.COQ_HEADER, "From XV Require Import Base.Scalar Base.Mat Base.Instances Model.ScalerLib Model.CrossCase.\n",
+            "Definition cases : list cross_case := [\n" + ";\n".join(cases) + "].\n", "Eval vm_compute in (0%%Z :: cross_mismatches %s cases).\n" % C.cf(1e-8)]
+    f = C.write_case_file("C05", "xm", "\n".join(body))
+    rc, out = C.coqc_run(f)
+    if rc != 0:
+        ctx.oblige("correspondence:cross-set transform chain", "correspondence", False, out[-600:])
+        return
+    ev = C.parse_evals(out)
+    bad = [j for j in C.parse_int_list(ev[0] if ev else "") if j > 0]
+    ctx.traces += len(cases)
+    ctx.oblige("correspondence:cross-set transform chain (scaler, PCA, whitening, projection, normalisation): %d transforms of new data vs cross_pipeline at binary64" % len(cases),
+               "correspondence", not bad, "disagreements: %r" % [metas[j - 1] for j in bad[:4]])
+
+
 def run_multi(ctx, rng, N):
     import xeofs as xe
     for i in range(N):
@@ -229,6 +302,7 @@ def run(ctx):
     run_structured(ctx, rng, ctx.n(8, 80))
     run_cross(ctx, rng, ctx.n(25, 600))
     run_multi(ctx, rng, ctx.n(6, 60))
+    run_cross_model(ctx, rng, ctx.n(16, 300))
     from harness import mic
     mic.run(ctx, "C05", ctx.n(150, 1500))
     ctx.oblige("oracle:per-sample transform, own labels, no spurious NaN, every split point", "oracle", not ctx.violations)
